@@ -215,13 +215,18 @@ def blkErr : Blk → Option Err
 
 /-- `handleHeaderFrame` + the END_HEADERS part of `handleFrame`; `es`: flag bit 0x1 of the frame -/
 def handleHeaderFrame (t : T) (es eh selfDep : Bool) (blk : Blk) : Except Err T :=
-  if t.hf && !es then .error (.conn .protocol)                  -- "stream not open"
+  -- a trailer section that does not end the stream: a stream error once its block has been decoded, which
+  -- needs the whole block in this frame; a block that goes on in CONTINUATION: "stream not open"
+  let notLast := t.hf && !es
+  if notLast && !eh then .error (.conn .protocol)
   else
     let t := if t.hf && !eh then { t with hf := false } else t  -- a trailer block going on in CONTINUATION
     if selfDep then .error (.conn .protocol)
     else match blkErr blk with
       | some e => .error e
-      | none => .ok (if eh then { t with hf := true } else t)
+      | none =>
+        if notLast then .error (.strm .protocol)
+        else .ok (if eh then { t with hf := true } else t)
 
 def closedRank (t : T) : Bool := t.st == .halfClosed || t.st == .closed     -- `State() >= StreamStateHalfClosed`
 
